@@ -1,6 +1,8 @@
 package main
 
 import (
+	"io"
+	"errors"
 	"fmt"
 	"strings"
 	"sync"
@@ -47,6 +49,29 @@ func runEvScenario(sc evScenario) (pre, post [][]string, note string) {
 	conns := make([]*memConn, k)
 	var eps []gomavlib.EndpointConf
 	sent := refFrameBytes(sentinelFrame(sc.key))
+	devOf := map[string]int{}
+	opens := map[string]int{}
+	var omu sync.Mutex
+	if sc.mode == "eof" {
+		// the transport ends by itself (EOF) while the application is slow: serial endpoints opened through the hook; the
+		// device can be opened once (plus the existence test), every later attempt fails
+		old := gomavlib.VerifSetSerialOpenFunc(func(dev string, _ int) (io.ReadWriteCloser, error) {
+			omu.Lock()
+			defer omu.Unlock()
+			k := opens[dev]
+			opens[dev]++
+			switch k {
+			case 0:
+				return newMemConn(nil), nil
+			case 1:
+				return conns[devOf[dev]], nil
+			}
+			return nil, errors.New("gone")
+		})
+		defer gomavlib.VerifSetSerialOpenFunc(old)
+		oldp := gomavlib.VerifSetReconnectPeriod(50 * time.Millisecond)
+		defer gomavlib.VerifSetReconnectPeriod(oldp)
+	}
 	for i, s := range sc.streams {
 		full := append(append([]byte(nil), s...), sent...)
 		plan := []int{1 + r.Intn(40), 1 + r.Intn(5), 1 + r.Intn(300)}
@@ -54,7 +79,14 @@ func runEvScenario(sc evScenario) (pre, post [][]string, note string) {
 			plan = nil // one chunk: the whole (short) input is in the reader's buffer after its first Read
 		}
 		conns[i] = newMemConn(chunkify(full, plan))
-		eps = append(eps, gomavlib.EndpointCustom{ReadWriteCloser: conns[i]})
+		if sc.mode == "eof" {
+			conns[i].endErr = io.EOF
+			dev := fmt.Sprintf("/dev/c10_%d", i)
+			devOf[dev] = i
+			eps = append(eps, gomavlib.EndpointSerial{Device: dev, Baud: 57600})
+		} else {
+			eps = append(eps, gomavlib.EndpointCustom{ReadWriteCloser: conns[i]})
+		}
 	}
 	n := &gomavlib.Node{Endpoints: eps, Dialect: getDialect(sc.dn), OutVersion: gomavlib.V2, OutSystemID: 9,
 		HeartbeatDisable: true}
@@ -65,6 +97,9 @@ func runEvScenario(sc evScenario) (pre, post [][]string, note string) {
 		return nil, nil, "init-err"
 	}
 	idx := func(ch *gomavlib.Channel) int {
+		if sc.mode == "eof" {
+			return devOf[ch.Endpoint().Conf().(gomavlib.EndpointSerial).Device]
+		}
 		c := ch.Endpoint().Conf().(gomavlib.EndpointCustom).ReadWriteCloser
 		for i := range conns {
 			if c == conns[i] {
@@ -73,6 +108,8 @@ func runEvScenario(sc evScenario) (pre, post [][]string, note string) {
 		}
 		return -1
 	}
+	closesSeen := 0
+	allClosed := make(chan struct{})
 	pre = make([][]string, k)
 	post = make([][]string, k)
 	var mu sync.Mutex
@@ -102,8 +139,16 @@ func runEvScenario(sc evScenario) (pre, post [][]string, note string) {
 			} else {
 				pre[i] = append(pre[i], s)
 			}
+			if strings.HasPrefix(s, "C(") {
+				closesSeen++
+				if closesSeen == k {
+					close(allClosed)
+				}
+			}
 			mu.Unlock()
-			if sc.mode == "early" {
+			if sc.mode == "eof" {
+				time.Sleep(time.Duration(50+rc.Intn(400)) * time.Microsecond)
+			} else if sc.mode == "early" {
 				time.Sleep(time.Duration(100+rc.Intn(400)) * time.Microsecond)
 			} else if sc.slowCons && rc.Intn(4) == 0 {
 				time.Sleep(time.Duration(rc.Intn(300)) * time.Microsecond)
@@ -128,7 +173,17 @@ func runEvScenario(sc evScenario) (pre, post [][]string, note string) {
 			}
 		}(w)
 	}
-	if sc.mode == "drain" {
+	if sc.mode == "eof" {
+		close(startCons)
+		select {
+		case <-allClosed:
+		case <-time.After(10 * time.Second):
+			note = "timeout-waiting-for-close-events"
+		}
+		mu.Lock()
+		closing = true
+		mu.Unlock()
+	} else if sc.mode == "drain" {
 		close(startCons)
 		select {
 		case <-allSent:
@@ -192,6 +247,9 @@ func genC10(r *rngT, n int, tier string) {
 		mode := "drain"
 		if i%3 == 2 {
 			mode = "early"
+		}
+		if i%4 == 1 {
+			mode = "eof"
 		}
 		for c := 0; c < k; c++ {
 			st := c10Stream(r, dn, key)
